@@ -195,6 +195,7 @@ type Server struct {
 	aof       *os.File    // active aof file
 	aofdirty  atomic.Bool // mark the aofbuf as having data
 	aofbuf    []byte      // prewrite buffer
+	aofgen    int         // counts the times AOFSHRINK has replaced the aof
 	aofsz     int         // active size of the aof file
 	shrinking bool        // aof shrinking flag
 	shrinklog [][]string  // aof shrinking log
